@@ -335,9 +335,10 @@ def run(tier, is_known):
     order = [cfg for _, cfg, _, _ in pl]
     idx = {"i": 0}
 
-    def factory():
-        cfg = order[idx["i"]]
-        idx["i"] += 1
+    def factory(cfg=None):
+        if cfg is None:
+            cfg = order[idx["i"]]
+            idx["i"] += 1
         return [RewardOracle(cfg)]
 
     engine._FUNCS["c10-graphs"] = eval_graph
